@@ -332,7 +332,8 @@ def run(ctx, rep):
     cl = cand_lists[0].targets[0].id
     apps = [c for c in walk_no_nested(fn.node) if isinstance(c, ast.Call) and isinstance(c.func, ast.Attribute) and c.func.attr == 'append'
             and isinstance(c.func.value, ast.Name) and c.func.value.id == cl]
-    rep.floor('D1.state', 'appends to the candidate list', len(apps), 1)
+    if not apps:
+        rep.bad('D1.state', fn, cand_lists[0], 'no candidate besides the fitted Frank is ever appended: Clayton and Gumbel are never offered', construct='candidate families')
     constructed = set()
     for a in apps:
         st = stmt_of(a)
